@@ -97,6 +97,12 @@ def verify(ctx, repo, registry, prefix, qualnames, harness, expect_covers=(), ma
     except Unsupported as e:
         ctx.engine_error("%s: engine cannot process the current source: %s" % (prefix, e))
         return
+    except Exception as e:  # noqa  -- a crash of the engine on unexpected source is "cannot decide", never a pass or a violation
+        import traceback
+
+        tb = traceback.format_exc().strip().splitlines()
+        ctx.engine_error("%s: engine failed on the current source: %r [%s]" % (prefix, e, " | ".join(tb[-3:])[:300]))
+        return
     # functions whose real body was executed symbolically
     for q, fi in registry.executed.items():
         ctx.function_under_contract(q, fi.module.path, fi.lines(), fi.sha256())
